@@ -244,6 +244,7 @@ func (d *Dispatcher) run(it provider.AlertIterator) {
 						ctx = d.propagator.Extract(ctx, propagation.MapCarrier(alert.Header))
 					}
 
+					verifYield("worker:received", workerID, alert.Data)
 					d.routeAlert(ctx, alert.Data)
 
 				case <-d.ctx.Done():
